@@ -30,16 +30,16 @@ theorem child_D {nd c c' : Nd} {rdone : Bool}
       (c' = closeIn c ∧ rdone = true))
     (hp : DPair nd c) (hc : DNode c) :
     DNode c' ∧ (rdone = true → c'.inClosed = true ∨ c'.inAborted = true) ∧ (c'.inClosed = true → rdone = true) := by
-  obtain ⟨h1, ab, fa, dn, fh, al, ah, ad, as, nh, ih, nl, nu, fd, bd⟩ := hc
+  obtain ⟨h1, ab, fa, dn, fh, al, ah, ad, as, nh, ih, nl, fd, bd⟩ := hc
   unfold DPair at hp
   rcases he with ⟨rfl, e⟩ | ⟨rfl, e1, e2⟩ | ⟨rfl, e⟩
-  · subst e; exact ⟨⟨h1, ab, fa, dn, fh, al, ah, ad, as, nh, ih, nl, nu, fd, bd⟩, hp.1, hp.2⟩
+  · subst e; exact ⟨⟨h1, ab, fa, dn, fh, al, ah, ad, as, nh, ih, nl, fd, bd⟩, hp.1, hp.2⟩
   · have hncl : c.inClosed = false := by
       cases hcl : c.inClosed with
       | false => rfl
       | true => have := hp.2 hcl; simp_all
-    refine ⟨⟨?_, ?_, ?_, ?_, ?_, ?_, ?_, ?_, ?_, ?_, ?_, ?_, ?_, ?_, ?_⟩, ?_, ?_⟩ <;> simp_all <;> (try grind)
-  · refine ⟨⟨?_, ?_, ?_, ?_, ?_, ?_, ?_, ?_, ?_, ?_, ?_, ?_, ?_, ?_, ?_⟩, ?_, ?_⟩ <;> simp_all [closeIn_inClosed] <;> (try grind)
+    refine ⟨⟨?_, ?_, ?_, ?_, ?_, ?_, ?_, ?_, ?_, ?_, ?_, ?_, ?_, ?_⟩, ?_, ?_⟩ <;> simp_all <;> (try grind)
+  · refine ⟨⟨?_, ?_, ?_, ?_, ?_, ?_, ?_, ?_, ?_, ?_, ?_, ?_, ?_, ?_⟩, ?_, ?_⟩ <;> simp_all [closeIn_inClosed] <;> (try grind)
 
 theorem ChildEff'.facts {c c' : Nd} {cap : Nat} {nddone rdone : Bool}
     (he : (c' = c ∧ rdone = nddone) ∨ (c' = { c with inq := c.inq + 1, ent := c.ent + 1 } ∧ nddone = false ∧ rdone = false ∧ c.inq < cap) ∨
@@ -89,7 +89,7 @@ structure DInv (s : State) : Prop where
   fh1 : s.forkHand ≤ 1 ∧ s.forkLoop ≤ 1
 
 theorem dinv_nodeAct {cfg} {s s' : State} {i : Nat} {a : NAct} (h : step cfg s (.node i a) = some s')
-    (hleak : cfg.alertLeak = false) (hea : cfg.influxEarlyAbort = false) (hd : DInv s) : DInv s' := by
+    (hleak : cfg.alertLeak = false) (hea : cfg.influxEarlyAbort = false) (hfo : cfg.udfFwdOrphan = false) (hd : DInv s) : DInv s' := by
   simp only [step] at h
   split at h
   case h_2 => simp at h
@@ -99,7 +99,7 @@ theorem dinv_nodeAct {cfg} {s s' : State} {i : Nat} {a : NAct} (h : step cfg s (
   have hDnd := hd.nodes i nd g1
   have hnodes' : s'.nodes = ns := by rw [← h]
   have hph : s'.ph = s.ph := by rw [← h]
-  have hr : DNode r.nd := nodeStep_DNode g2 hDnd (by simp [env, hleak]) (by simp [env, hea])
+  have hr : DNode r.nd := nodeStep_DNode g2 hDnd (by simp [env, hleak]) (by simp [env, hea]) (by simp [env, hfo])
   -- facts about the child
   have hchild : ∀ c x, s.nodes[i+1]? = some c → r.child = some x →
       DNode x ∧ DPair r.nd x ∧ x.done = c.done ∧ x.kind = c.kind ∧ x.stopping = c.stopping ∧ x.helperDone = c.helperDone ∧
@@ -306,7 +306,7 @@ theorem dinv_phase {s s' : State} (hd : DInv s) (hn : s'.nodes = s.nodes)
   · exact hfl
 
 theorem DNode.closeIn {nd} (h : DNode nd) : DNode (closeIn nd) := by
-  obtain ⟨h1, ab, fa, dn, fh, al, ah, ad, as, nh, ih, nl, nu, fd, bd⟩ := h
+  obtain ⟨h1, ab, fa, dn, fh, al, ah, ad, as, nh, ih, nl, fd, bd⟩ := h
   constructor <;> simp_all [closeIn_inClosed] <;> (try grind)
 
 theorem dinv_stopStep {cfg} {s s' : State} (h : stopStep cfg s = some s') (hea : cfg.influxEarlyAbort = false)
@@ -502,8 +502,8 @@ theorem dinv_stopStep {cfg} {s s' : State} (h : stopStep cfg s = some s') (hea :
       refine dinv_modify_at hd i (fun nd => { nd with stopping := true }) rfl (by intro nd; simp) ?_ ?_ ?_ ?_ ?_ rfl ?_ ?_ ?_ ?_ ?_
       · intro nd hi
         rw [hndi] at hi; simp at hi; subst hi
-        obtain ⟨h1, ab, fa, dn, fh, al, ah, ad, as, nh, ih, nl, nu, fd, bd⟩ := hd.nodes i ndi hndi
-        constructor <;> simp_all [isAlert, isInflux, isUdf]
+        obtain ⟨h1, ab, fa, dn, fh, al, ah, ad, as, nh, ih, nl, fd, bd⟩ := hd.nodes i ndi hndi
+        constructor <;> simp_all [isAlert, isInflux, isUdf, bufK, isBarrier, isLoop, Kind.hasHelper]
       · intro nd hi _; simp [abortedBy]
       · intro k hk; simp [hph, abortedBy]; omega
       · intro k; simp [hph, doneBy]
@@ -545,10 +545,10 @@ theorem dinv_glob {s s' : State} (hd : DInv s) (hn : s'.nodes = s.nodes) (hph : 
 
 /-- **The protocol invariant is preserved by every action.** -/
 theorem dinv_step {cfg} {s s' : State} {a : Act} (h : step cfg s a = some s') (hleak : cfg.alertLeak = false)
-    (hea : cfg.influxEarlyAbort = false) (hd : DInv s) : DInv s' := by
+    (hea : cfg.influxEarlyAbort = false) (hfo : cfg.udfFwdOrphan = false) (hd : DInv s) : DInv s' := by
   cases a with
   | stop => exact dinv_stopStep h hea hd
-  | node i a => exact dinv_nodeAct h hleak hea hd
+  | node i a => exact dinv_nodeAct h hleak hea hfo hd
   | write =>
     simp only [step] at h
     split at h
@@ -620,7 +620,7 @@ theorem dinv_step {cfg} {s s' : State} {a : Act} (h : step cfg s a = some s') (h
         cases k with
         | zero =>
           simp at hk; subst hk
-          obtain ⟨h1, ab, fa, dn, fh, al, ah, ad, as, nh, ih, nl, nu, fd, bd⟩ := hd.nodes 0 nd h0
+          obtain ⟨h1, ab, fa, dn, fh, al, ah, ad, as, nh, ih, nl, fd, bd⟩ := hd.nodes 0 nd h0
           constructor <;> simp_all <;> (try grind)
         | succ k => rw [hs (k+1) (by omega)] at hk; exact hd.nodes _ x hk
       · intro k x y hk hk1
